@@ -19,7 +19,9 @@ func IsTimeout(err error) bool {
 	if t {
 		return t
 	}
-	if e, ok := err.(net.Error); ok {
+	// the error usually arrives wrapped (e.g. by the dialer), look through the chain
+	var e net.Error
+	if errors.As(err, &e) {
 		return e.Timeout()
 	}
 	return false
